@@ -163,8 +163,18 @@ func (nc *nodeCase) runCrashPoints(maxPoints int) {
 		}
 		n.quiesce()
 		d2 := nc.dump("ok")
-		if nc.segs(d2, chainKeys...) != nc.segs(finalDump, chainKeys...) {
-			c.Fail("C19:redelivery-diverges", where+": after re-delivery "+nc.segs(d2, "best", "main")+" but the crash-free run ends with "+nc.segs(finalDump, "best", "main"))
+		ledgerOf := func(d string) string {
+			return normUtxoDump(nc.segs(d, "utxo")) + " " + nc.segs(d, "contracts")
+		}
+		if nc.segs(d2, "best", "main") != nc.segs(finalDump, "best", "main") {
+			// sub-class: the stored best block lags behind the node's own fork choice
+			sg := "C19:redelivery-diverges"
+			if bh := n.chain.BestBlockHeader(); bh != nil && bh.Hash() != n.chain.VerifNodeCasper().BestChain() {
+				sg += ":best-behind-fork-choice"
+			}
+			c.Fail(sg, where+": after re-delivery "+nc.segs(d2, "best", "main")+" but the crash-free run ends with "+nc.segs(finalDump, "best", "main"))
+		} else if ledgerOf(d2) != ledgerOf(finalDump) {
+			c.Fail("C19:redelivery-ledger-differs", where+": best/main agree but the ledger after re-delivery is "+ledgerOf(d2)+" and the crash-free run ends with "+ledgerOf(finalDump))
 		} else if nc.segs(d2, "just") != nc.segs(finalDump, "just") {
 			c.Fail("C19:redelivery-justified-differs", where+": after re-delivery "+nc.segs(d2, "fin", "just")+" but the crash-free run ends with "+nc.segs(finalDump, "fin", "just"))
 		} else if nc.segs(d2, "fin") != nc.segs(finalDump, "fin") {
